@@ -66,6 +66,9 @@ VarScale == { [shape |-> sh, n |-> k] : sh \in {"many-vars", "many-vars-read", "
 \* descent, a toplevel block): the limit is on the blocks open at one time, not on how deep the program has been before
 \* a bind whose type name is a late constant: n filler fields (two constants each) come first, so that the constant index of the bound
 \* type crosses the one-byte operand class (240/241) and 255/256; the binding must still be the one block of that type
+\* n integer literals (each its own constant) come first; then an identifier is met for the first time and used again: constant
+\* indices across 240/241, 2287/2288 (the two- and three-byte operand classes) and 65535/65536
+ConstScale == { [shape |-> "many-consts", n |-> k] : k \in {1, 238, 239, 240, 241, 242, 2284, 2285, 2286, 2287, 2288, 2289, 2290, 65533, 65534, 65535, 65536, 65537, 67822, 67823, 67824} }
 BindScale == { [shape |-> "bind-late", n |-> k] : k \in {1, 2} \cup (112..130) \cup {300, 1200} }
 BlockScale == { [shape |-> sh, n |-> k] : sh \in {"nested-def-then", "nested-def-twice"}, k \in {1, 2, 3, 8, 14, 15, 16, 17} }
 \* short-circuit jumps across the one-byte boundary of the 16-bit operand, taken and not taken
@@ -76,6 +79,7 @@ PickScale == /\ phase = 0 /\ phase' = 1 /\ UNCHANGED bs
                 \/ Scope = "jumps" /\ \E c \in JumpScale : sc' = c
                 \/ Scope = "blockscale" /\ \E c \in BlockScale : sc' = c
                 \/ Scope = "bindscale" /\ \E c \in BindScale : sc' = c
+                \/ Scope = "constscale" /\ \E c \in ConstScale : sc' = c
 Next == Grow \/ PickLit \/ PickBase \/ Damage \/ PickScale
 Spec == Init /\ [][Next]_vars
 \* what the language says about the jump-distance shapes: the short-circuit jump spans 2 + 2m bytes for m = (n - 2) \div 2 added terms;
@@ -97,6 +101,7 @@ ExpectOf(c) == CASE c.shape \in {"long-and", "long-or"} ->
                  [] c.shape \in {"long-and-nt", "long-or-nt"} -> (IF JumpSpan(c.n) > Limits.jump THEN <<99>> ELSE Dec(1 + ((c.n - 2) \div 2)))
                  [] c.shape \in {"many-vars-read", "many-vars-in-block"} -> (IF c.n + 2 > Limits.stack THEN <<>> ELSE Dec((c.n - 1) % 7))   \* the two operands need two more slots
                  [] c.shape = "vars-distinct" -> Dec(200 + (c.n - 1))
+                 [] c.shape = "many-consts" -> <<50, 10, 55>>     \* the block prints q = 2, then the toplevel prints 7
                  [] c.shape = "bind-late" -> <<98>>          \* <<98>> = "b": a struct binding of the one block of type 'target' (name "t", k = n), two result blocks
                  \* every block prints its depth on the way in; "then": each level opens one more sibling child (printing 0) before it closes,
                  \* then a toplevel block prints 7; "twice": the whole descent is made a second time. Beyond the limit: a runtime error.
@@ -107,5 +112,5 @@ ExpectOf(c) == CASE c.shape \in {"long-and", "long-or"} ->
 DiagCol(c) == IF c.shape \in {"long-and", "long-or", "long-and-nt", "long-or-nt"} /\ JumpSpan(c.n) > Limits.jump
               THEN (IF c.shape \in {"long-or", "long-or-nt"} THEN 12 ELSE 13) + (2 * ((c.n - 2) \div 2) + 1) + 1 + 1 ELSE 0
 Emit == (Scope = "bytes" \/ phase >= 1) =>
-        PrintT(<<"CASE", ToJson([fam |-> "total", src |-> bs, shape |-> sc.shape, n |-> sc.n, expect |-> ExpectOf(sc), dcol |-> DiagCol(sc), nt |-> (Len(bs) >= 2 \/ Scope \in {"scale", "varscale", "jumps", "blockscale", "bindscale"})])>>)
+        PrintT(<<"CASE", ToJson([fam |-> "total", src |-> bs, shape |-> sc.shape, n |-> sc.n, expect |-> ExpectOf(sc), dcol |-> DiagCol(sc), nt |-> (Len(bs) >= 2 \/ Scope \in {"scale", "varscale", "jumps", "blockscale", "bindscale", "constscale"})])>>)
 ====
